@@ -384,6 +384,7 @@ func plugOptionCodes4(plugin string) []uint8 {
 func ExecOpt(c OptCase) (res core.Result) {
 	defer func() {
 		if r := recover(); r != nil {
+			core.HarnessPanic(r)
 			res = core.Result{Viol: core.Violate("C17/"+c.Plugin+"/panic", "%s handler panicked on an accepted configuration: %v", c.Plugin, r)}
 		}
 	}()
